@@ -52,6 +52,8 @@ Matches(x, post, prevVersion) ==
     /\ \A f \in Files : x.fdefs[f] = RangeOf(post.fdefs[f])
     /\ \A f \in Files : SameBag(UsesView(x)[f], post.usages[f])
     /\ \A n \in TNames : \A f \in Files : SameBag(UbfBag(x, n, f), post.ubf[n][f])
+    \* undeclared-fixture findings (computed while the module is walked, against the index as it is then)
+    /\ \A f \in Files : SameBag(x.undecl[f], post.undecl[f])
     /\ post.version >= prevVersion
     /\ (x.version > prevVersion => post.version > prevVersion)
 
